@@ -386,8 +386,10 @@ where
 					self.doctest_mode,
 				);
 				match res {
-					Ok(s) => return Ok(s.unwrap()),
-					Err(_) => return Ok(ret_slate),
+					Ok(Some(s)) => return Ok(s),
+					// nothing could be sent (not an address, or no way to reach it):
+					// the caller gets the reply slate to deliver
+					Ok(None) | Err(_) => return Ok(ret_slate),
 				}
 			}
 			None => Ok(ret_slate),
